@@ -614,7 +614,11 @@ class DLC(utils.EventEmitter):
         )
         if data:
             if self._sink:
-                self._sink(data)  # pylint: disable=not-callable
+                try:
+                    self._sink(data)  # pylint: disable=not-callable
+                except Exception:
+                    # The frame has been received: it must still be accounted for
+                    logger.exception(color('!!! exception in DLC sink', 'red'))
             else:
                 self._enqueued_rx_packets.append(data)
             if (
